@@ -101,6 +101,25 @@ fn gen_with(tier: &str, seed: u64, heavy_scripts: bool, emit: &mut dyn FnMut(Str
             for pid in [p, a, own, pool[2]] { let pl = rng.bytes(184); m.data_packet(pid, false, &pl, &mut rng); }
             emit(dmx_case(0, "", &[m.bytes()]));
         }
+        // a PID changing roles over time: announced as a program-map PID, dropped by the next PAT, announced as an elementary
+        // stream by another program's map, then the PAT changes once more
+        for _ in 0..(if big { 100 } else { 12 }) {
+            let pool = pid_pool(&mut rng, 5);
+            let (p, x, a) = (pool[0], pool[1], pool[2]);
+            let mut m = Mux::new();
+            let v0 = rng.below(32) as u8;
+            let pat0 = section(0, 1, v0, true, &pat_body(&[(1, p), (2, x)], &mut rng));
+            let pat1 = section(0, 1, (v0 + 1) & 31, true, &pat_body(&[(1, p)], &mut rng));
+            let pat2 = section(0, 1, (v0 + 2) & 31, true, &pat_body(&[(1, p), (0, pool[3])], &mut rng));
+            let pmt0 = section(2, 1, 3, true, &pmt_body(a, &[], &[(0x1b, a, vec![])], &mut rng));
+            let pmt1 = section(2, 1, 4, true, &pmt_body(a, &[], &[(0x1b, a, vec![]), (0x0f, x, vec![])], &mut rng));
+            let probe = |m: &mut Mux, pid: u16, rng: &mut Rng| { let pl = rng.bytes(184); m.data_packet(pid, false, &pl, rng); };
+            m.psi(0, &pat0, 0, 0, &mut rng); m.psi(p, &pmt0, 0, 0, &mut rng); probe(&mut m, x, &mut rng); probe(&mut m, a, &mut rng);
+            m.psi(0, &pat1, 0, 0, &mut rng); probe(&mut m, x, &mut rng);
+            m.psi(p, &pmt1, 0, 0, &mut rng); probe(&mut m, x, &mut rng);
+            m.psi(0, &pat2, 0, 0, &mut rng); probe(&mut m, x, &mut rng); probe(&mut m, a, &mut rng); probe(&mut m, pool[3], &mut rng);
+            emit(dmx_case(0, "", &[m.bytes()]));
+        }
     }
     if heavy_scripts {
         // one invocation queueing hundreds of requests (more than any fixed-size queue a table could need): inserts then
